@@ -49,6 +49,12 @@ Headers/TreeProps.vos Headers/TreeProps.vok Headers/TreeProps.required_vos: Head
 Headers/TreeExample.vo Headers/TreeExample.glob Headers/TreeExample.v.beautified Headers/TreeExample.required_vo: Headers/TreeExample.v Base/Prelude.vo Base/Compact.vo Headers/Tree.vo Headers/TreeBasics.vo Headers/TreeInv.vo Headers/TreeSteps.vo Headers/TreeProps.vo
 Headers/TreeExample.vio: Headers/TreeExample.v Base/Prelude.vio Base/Compact.vio Headers/Tree.vio Headers/TreeBasics.vio Headers/TreeInv.vio Headers/TreeSteps.vio Headers/TreeProps.vio
 Headers/TreeExample.vos Headers/TreeExample.vok Headers/TreeExample.required_vos: Headers/TreeExample.v Base/Prelude.vos Base/Compact.vos Headers/Tree.vos Headers/TreeBasics.vos Headers/TreeInv.vos Headers/TreeSteps.vos Headers/TreeProps.vos
+Blocks/Reach.vo Blocks/Reach.glob Blocks/Reach.v.beautified Blocks/Reach.required_vo: Blocks/Reach.v Base/Prelude.vo
+Blocks/Reach.vio: Blocks/Reach.v Base/Prelude.vio
+Blocks/Reach.vos Blocks/Reach.vok Blocks/Reach.required_vos: Blocks/Reach.v Base/Prelude.vos
+Blocks/DownloaderLTS.vo Blocks/DownloaderLTS.glob Blocks/DownloaderLTS.v.beautified Blocks/DownloaderLTS.required_vo: Blocks/DownloaderLTS.v Base/Prelude.vo Gen/Consts.vo Blocks/Reach.vo
+Blocks/DownloaderLTS.vio: Blocks/DownloaderLTS.v Base/Prelude.vio Gen/Consts.vio Blocks/Reach.vio
+Blocks/DownloaderLTS.vos Blocks/DownloaderLTS.vok Blocks/DownloaderLTS.required_vos: Blocks/DownloaderLTS.v Base/Prelude.vos Gen/Consts.vos Blocks/Reach.vos
 Tx/TxManager.vo Tx/TxManager.glob Tx/TxManager.v.beautified Tx/TxManager.required_vo: Tx/TxManager.v Base/Prelude.vo
 Tx/TxManager.vio: Tx/TxManager.v Base/Prelude.vio
 Tx/TxManager.vos Tx/TxManager.vok Tx/TxManager.required_vos: Tx/TxManager.v Base/Prelude.vos
